@@ -619,7 +619,10 @@ func (m *intraProxyManager) ensureStream(
 	// Fast path: already exists
 	m.streamsMu.RLock()
 	if ps, ok := m.peers[peerNodeName]; ok && ps != nil {
-		if r, ok2 := ps.receivers[key]; ok2 && r != nil && r.streamClient != nil {
+		// A registered receiver counts even while it is still opening its stream (streamClient
+		// not set yet): creating another one for the same pair would leave two live streams, and
+		// the peer would spread one source shard's tasks over both, out of order.
+		if r, ok2 := ps.receivers[key]; ok2 && r != nil {
 			m.streamsMu.RUnlock()
 			logger.Debug("ensureStream reused")
 			return nil
